@@ -236,11 +236,14 @@ def stress2_extra(pid, mode=None):
     def extra(ctx, res, allsched, impl):
         import subprocess
         binary, seed, tier = ctx["binary"], ctx["seed"], ctx["tier"]
-        plan = [(4, 1500)] if tier == "quick" else [(2, 5000), (4, 5000), (8, 5000), (4, 20000)]
+        plan = [(4, 1500, mode)] if tier == "quick" else [(2, 5000, mode), (4, 5000, mode), (8, 5000, mode), (4, 20000, mode)]
+        if pid == "C05" and mode is None:
+            # weight-changing upserts racing sweeps, evictions and deletes: at the end every charge must be gone again
+            plan += [(4, 1500, "upserts")] if tier == "quick" else [(2, 5000, "upserts"), (4, 8000, "upserts"), (8, 8000, "upserts")]
         runs = []
-        for n, (threads, millis) in enumerate(plan):
+        for n, (threads, millis, md) in enumerate(plan):
             try:
-                p = subprocess.run([binary, "stress2", str(threads), str(millis), str(seed + n)] + ([mode] if mode else []), capture_output=True, text=True, timeout=millis / 1000.0 + 90)
+                p = subprocess.run([binary, "stress2", str(threads), str(millis), str(seed + n)] + ([md] if md else []), capture_output=True, text=True, timeout=millis / 1000.0 + 90)
                 out = [json.loads(l) for l in p.stdout.splitlines() if l.startswith("{")]
             except subprocess.TimeoutExpired:
                 res["failures"].append(dict(signature="stress-run-hung", what="the perturbed stress run with %d threads did not finish" % threads, threads=threads, millis=millis, seed=seed + n))
@@ -250,7 +253,7 @@ def stress2_extra(pid, mode=None):
                     continue
                 runs.append({k: d[k] for k in ("threads", "millis", "operations", "min_total_seen", "max_total_seen", "final_total", "keys_balance", "panic_count", "hung")})
                 res["evaluations"] += d["operations"]
-                rep = dict(threads=threads, millis=millis, seed=seed + n, replay="./.build/target/debug/cached-verif-harness stress2 %d %d %d%s" % (threads, millis, seed + n, " " + mode if mode else ""), observed=d)
+                rep = dict(threads=threads, millis=millis, seed=seed + n, replay="./.build/target/debug/cached-verif-harness stress2 %d %d %d%s" % (threads, millis, seed + n, " " + md if md else ""), observed=d)
                 if pid == "C07" and d.get("unreadable_but_present"):
                     res["failures"].append(dict(rep, signature="unreadable-key-rejected-as-existing-under-concurrency", no_shrink=True, what="after a concurrent run without any time-to-live, with every acknowledgement completed, keys %s read as absent and a put of them is rejected as already existing" % d["unreadable_but_present"]))
                 if pid == "C07" and d.get("accepted_put_unreadable"):
@@ -388,6 +391,48 @@ def window_extra(pid, inner=None, monitor=False):
     return extra
 
 
+def micro_extra(pid, inner=None, profiles=("general", "ttl", "reads", "queue1", "awaited", "shutdown")):
+    """Micro schedules: calls started in point-stepping mode and continued one schedule point at a time (`call.entered`,
+    `put.checked`, `send.enter`, `delete.marked`, `read.hit`, `upsert.after_store_update`, the six stages of shutdown) and
+    worker commands stopped inside Delete and put-with-TTL, with every other thread overtaking; run on the real cache and
+    on the micro model (Micro.v), full state compared after every step; judged by the micro monitors."""
+    def extra(ctx, res, allsched, impl):
+        if inner:
+            inner(ctx, res, allsched, impl)
+        if ctx.get("replay"):
+            return
+        binary, seed, tier = ctx["binary"], ctx["seed"], ctx["tier"]
+        n = 96 if tier == "quick" else 1500
+        scheds = gen.generate_micro(seed + 29, n, profiles)
+        for s in corpus_for(pid):
+            if s.get("monitor") == "micro":
+                scheds.append(dict(s, name="mc_" + s["name"]))
+        ok, log = coq_make(["theories/Micro.vo"])
+        if not ok:
+            raise Broken("model-build", log[-3000:])
+        divs, impl_m, _ = corr.correspond(binary, scheds, pid + "_micro", window="micro")
+        for d in divs:
+            res["divergences"].append(dict(kind="micro-schedule", component=d["component"], field=d["field"],
+                                           schedule=dict(name=d["schedule"]["name"], cfg=d["schedule"]["cfg"], events=d["schedule"]["events"][: d["event_index"] + 1]),
+                                           event_index=d["event_index"], event=d["event"], model=d["model"], impl=d["impl"]))
+        stops = {}
+        for s in scheds:
+            for r in impl_m.get(s["name"], []):
+                if r["ret"] and r["ret"][0] == 7 and len(r["ret"]) > 1:
+                    stops[r["ret"][1]] = stops.get(r["ret"][1], 0) + 1
+        fails = monitors.run_monitor(pid, scheds, impl_m)
+        if (divs or not ctx["proof_ok"]) and not fails:
+            more = gen.generate_micro(seed + 7013, max(300, 2 * n), profiles, density=0.8)
+            impl2 = corr.run_impl(binary, more, pid + "_microsearch")
+            fails = monitors.run_monitor(pid, more, impl2)
+        res["failures"] += fails
+        res["evaluations"] += sum(len(impl_m.get(s["name"], [])) for s in scheds)
+        res["traces"] += len(scheds)
+        res["extra"]["micro_schedules"] = dict(schedules=len(scheds), stops_by_schedule_point=stops)
+        res["rule"] += "; plus %d micro schedules (%d stops at schedule points inside calls and worker commands, other threads overtaking) compared with the micro model" % (len(scheds), sum(stops.values()))
+    return extra
+
+
 def release_extra(pid, inner=None):
     """Thorough tier only: the same correspondence with the harness and /repo built in the release profile (overflow
     wraps instead of panicking) against the model's wrapping branch (c_debug = false)."""
@@ -424,11 +469,11 @@ PROPS.update({
                              "overflow-checking (debug) profile"]),
     "C03": dict(module="C03", run=mk("C03", ["roomy", "awaited", "ttl", "ttlchain", "general"], 250, 4000), components=["store", "weights", "admission", "ticker", "api", "queue_worker", "time"],
                 assumptions=["partial: phase-contiguous schedules; 'no memory pressure' is stated per executed put (it fits the free space)"]),
-    "C04": dict(module="C04", run=mk("C04", ["general", "ttl", "awaited", "queue1"], 250, 4000), components=["store", "api", "queue_worker", "weights", "ticker"]),
-    "C05": dict(module="C05", run=mk("C05", ["general", "queue1", "ttl", "evict", "evict2"], 250, 4000, extra=stress_quiescent_extra("C05", stress2_extra("C05"))), components=["weights", "store", "api", "queue_worker", "ticker", "admission"]),
+    "C04": dict(module="C04", modules=["C04", "C04_micro"], run=mk("C04", ["general", "ttl", "awaited", "queue1"], 250, 4000, extra=micro_extra("C04")), components=["store", "api", "queue_worker", "weights", "ticker"]),
+    "C05": dict(module="C05", modules=["C05", "C05_micro"], run=mk("C05", ["general", "queue1", "ttl", "evict", "evict2"], 250, 4000, extra=micro_extra("C05", stress_quiescent_extra("C05", stress2_extra("C05")))), components=["weights", "store", "api", "queue_worker", "ticker", "admission"]),
     "C06": dict(module="C06", run=mk("C06", ["evict2", "evict", "general"], 270, 4000), components=["admission", "weights", "sketch", "tinylfu", "store"]),
-    "C07": dict(module="C07", run=mk("C07", ["general", "ttl", "awaited"], 250, 4000, extra=stress2_extra("C07", "nottl")), components=["store", "api", "time", "queue_worker"]),
-    "C08": dict(module="C08", modules=["C08", "C08_window"], run=mk("C08", ["general", "ttl", "roomy", "ttlchain", "upsertpipe"], 250, 4000, extra=window_extra("C08", monitor=True)), components=["store", "api", "ticker", "weights", "time", "queue_worker"]),
+    "C07": dict(module="C07", modules=["C07", "C07_micro"], run=mk("C07", ["general", "ttl", "awaited"], 250, 4000, extra=micro_extra("C07", stress2_extra("C07", "nottl"), profiles=("general", "ttl", "awaited", "queue1"))), components=["store", "api", "time", "queue_worker"]),
+    "C08": dict(module="C08", modules=["C08", "C08_window", "C08_micro"], run=mk("C08", ["general", "ttl", "roomy", "ttlchain", "upsertpipe"], 250, 4000, extra=window_extra("C08", monitor=True)), components=["store", "api", "ticker", "weights", "time", "queue_worker"]),
     "C09": dict(module="C09", run=mk("C09", ["ttl", "general", "ttlchain"], 250, 4000), components=["store", "time", "api", "ticker"]),
     "C10": dict(module="C10", modules=["C10", "C10_window"], run=mk("C10", ["ttl", "general", "ttlchain"], 250, 4000, extra=window_extra("C10", monitor=True)), components=["ticker", "weights", "store", "api", "time"]),
 })
@@ -455,15 +500,15 @@ def run_C12(ctx):
 
 
 PROPS.update({
-    "C02": dict(module="C02", run=mk("C02", ["general", "reads", "ttl", "evict", "queue1", "ttlchain"], 250, 4000), components=["store", "api", "queue_worker", "time"],
+    "C02": dict(module="C02", modules=["C02", "C02_micro"], run=mk("C02", ["general", "reads", "ttl", "evict", "queue1", "ttlchain"], 250, 4000, extra=micro_extra("C02", profiles=("reads", "general", "ttl"))), components=["store", "api", "queue_worker", "time"],
                 assumptions=["phase-contiguous schedules; every write uses a unique value token; hash functions identity / constant / mod 2 / multiplicative"]),
-    "C11": dict(module="C11", run=mk("C11", ["queue1", "general", "shutdown"], 250, 4000, extra=order_extra("C11")), components=["queue_worker", "api", "roles"],
+    "C11": dict(module="C11", modules=["C11", "C11_micro"], run=mk("C11", ["queue1", "general", "shutdown"], 250, 4000, extra=micro_extra("C11", order_extra("C11"), profiles=("queue1", "general", "awaited"))), components=["queue_worker", "api", "roles"],
                 assumptions=["that crossbeam's bounded channel is FIFO and that send blocks when full is exercised through parked senders (queue sizes 1,2,3,8), not proved"]),
     "C12": dict(module="C12", run=run_C12, components=["ack"],
                 assumptions=["each access to status / waker slot is one atomic action because it happens under its parking_lot mutex; Release/Acquire on the flag is modelled as sequentially consistent"]),
-    "C13": dict(module="C13", run=mk("C13", ["shutdown", "queue1", "general"], 250, 4000), components=["api", "queue_worker", "pool", "store", "weights", "ticker", "roles"],
+    "C13": dict(module="C13", modules=["C13", "C13_micro"], run=mk("C13", ["shutdown", "queue1", "general"], 250, 4000, extra=micro_extra("C13", profiles=("shutdown", "queue1", "general"))), components=["api", "queue_worker", "pool", "store", "weights", "ticker", "roles"],
                 assumptions=["partial: 'shutdown() returns' and 'every acknowledgement completes' are proved as enabledness/progress facts of the model; that the worker and consumer threads keep being scheduled is assumed"]),
-    "C15": dict(module="C15", modules=["C15", "C15_pool"], run=mk("C15", ["reads", "evict", "general"], 250, 4000, extra=stress_quiescent_extra("C15")), components=["pool", "stats", "tinylfu", "api"],
+    "C15": dict(module="C15", modules=["C15", "C15_pool"], run=mk("C15", ["reads", "evict", "general"], 250, 4000, extra=micro_extra("C15", stress_quiescent_extra("C15"), profiles=("reads", "general"))), components=["pool", "stats", "tinylfu", "api"],
                 assumptions=["partial: 'never blocks' is enabledness in the model; that crossbeam's select!{send, default} does not block is exercised with a gated (stalled) and an exited consumer, not proved"]),
     "C17": dict(module="C17", run=mk("C17", ["boundary", "general", "ttl", "queue1"], 300, 5000, extra=release_extra("C17", stress2_extra("C17", "upserts"))), components=["panics", "roles", "api", "store", "weights", "admission", "ticker", "sketch", "tinylfu", "queue_worker", "time", "pool"],
                 assumptions=["partial: covers the panic sites the model represents (assert!/unwrap/expect/index operations/i64 overflow under the debug profile/SystemTime addition); allocation failure, thread spawn failure and panics inside dependencies are not modelled",
